@@ -24,6 +24,9 @@ def main():
         case = data['case']
         h = mod.HARNESS[fn]
         fail = h['check'](case)
+        if isinstance(fail, list):
+            fail = [x for x in fail if all(data.get(k) == x.get(k) for k in ('object',) if k in data)] or None
+            fail = fail[0] if fail else None
         if fail is None:
             print(f'replay: contract holds for {fn} on {case!r}')
             return 0
@@ -51,7 +54,8 @@ def main():
                     out['error'] = f'harness error in {fn} on {case!r}: ' + traceback.format_exc()[-800:]
                     break
                 if f is not None:
-                    fails.append({'function': fn, 'case': case, **f})
+                    for ff in (f if isinstance(f, list) else [f]):
+                        fails.append({'function': fn, 'case': case, **ff})
                 if time.time() - t1 > budget:
                     break
             out['functions'][fn] = n
@@ -62,12 +66,12 @@ def main():
             fails.sort(key=lambda f: len(json.dumps(f['case'], default=str)))
             kept, classes = [], {}
             for f in fails:
-                cls = (f.get('observed') or '')[:40]
+                cls = f.get('class') or (f.get('observed') or '')[:40]
                 if classes.get(cls, 0) >= 1:
                     continue
                 classes[cls] = classes.get(cls, 0) + 1
                 kept.append(f)
-            out['failures'].extend(kept[:3])
+            out['failures'].extend(kept[:10])
     except Exception:
         out['error'] = traceback.format_exc()[-1500:]
     out['wall_s'] = round(time.time() - t0, 2)
